@@ -92,6 +92,13 @@ class PartitionList(Contract):
         return {'list_to_partition': e.new_obj(st, Arr(z3.Array('xs', z3.IntSort(), z3.IntSort()), (z3.Int('NX'),), 'int')),
                 'partition_lengths': e.new_obj(st, Arr(z3.Array('plens', z3.IntSort(), z3.IntSort()), (z3.Int('NP'),), 'int'))}
 
+    def result(self, e, st, args):
+        import z3
+        from pyvc.logic import Arr
+        base, ln = e.deref(st, args['list_to_partition']), e.deref(st, args['partition_lengths'])
+        cols = (e.fresh('pl_lo', e.arr_sort('int')), e.fresh('pl_n', e.arr_sort('int')))
+        return e.new_obj(st, Arr(cols, (ln.shape[0],), 'slices', meta={'list': True, 'base': base}))
+
     def ghost(self, L, A):
         PS, ax = prefix_sums(L, A['partition_lengths'], 'PSL')
         return {'PS': PS}, ax
